@@ -75,6 +75,21 @@ def sweep(tier: str) -> Sweep:
                 else:
                     want = bool(w <= v and v < bound_tilde(cls, w))
                 sw.check(got is want, f"{op or 'bare'} does not denote the documented set", {**case, "clause": "denotation"}, want, got)
+        # the caret on 0.x and 0.0.x versions, every boundary: the first non-zero component decides the bound
+        for (a, b_, z) in [(0, 0, 1), (0, 0, 3), (0, 0, 9), (0, 0, 10), (0, 0, 99), (0, 1, 0), (0, 1, 5), (0, 9, 9), (0, 10, 0), (1, 0, 0), (9, 9, 9)]:
+            w = cls(major=a, minor=b_, patch=z)
+            cands = {(a, b_, z), (a, b_, z + 1), (a, b_ + 1, 0), (a + 1, 0, 0), (a, b_, max(z - 1, 0)), (a, b_, z + 90), (a, b_ + 9, 1), (0, 0, 0)}
+            for t in sorted(cands):
+                v = cls(major=t[0], minor=t[1], patch=t[2])
+                expr = "^" + str(w)
+                bnd = bound_caret(cls, w)
+                want = bool(w <= v and v < bnd)
+                sw.note(["caret", c, str(v), expr], "^")
+                try:
+                    got = v.match(expr)
+                    sw.check(got is want, "^ does not denote the documented set", {"cls": c, "v": str(v), "expr": expr, "op": "^", "clause": "denotation"}, want, got)
+                except Exception as e:  # noqa: BLE001
+                    sw.check(False, "match raised on a well-formed expression", {"cls": c, "v": str(v), "expr": expr, "op": "^", "clause": "no-exception"}, "a bool", f"{type(e).__name__}: {e}")
         # wildcards
         for x, y in itertools.product(NUMS, NUMS):
             for expr, lo, hi in ((f"{x}.*", (x, 0, 0), (x + 1, 0, 0)), (f"{x}.{y}.*", (x, y, 0), (x, y + 1, 0))):
@@ -93,6 +108,17 @@ def sweep(tier: str) -> Sweep:
                      "`*` is not [0.0.0, infinity)", {"cls": c, "expr": "*", "clause": "wildcard"})
         except Exception as e:  # noqa: BLE001
             sw.check(False, "wildcard raised", {"cls": c, "expr": "*", "clause": "wildcard"}, None, f"{type(e).__name__}: {e}")
+        # a wildcard anywhere but in the last position, or around something that is not a number, is malformed
+        for e in ["2.*.1", "0.*.0", "1.*.9", "10.*.10", "9.*.99", "*.1", "*.*", "1.2.3.*", "x.*", ".*", "1..*", "1.-*", "**"]:
+            case = {"cls": c, "expr": e, "clause": "malformed-wildcard"}
+            sw.note(["malformed-wild", c, e], "malformed")
+            try:
+                got = cls.extract_wildcard(e)
+                sw.check(False, "a malformed wildcard was answered", case, "ValueError", [str(x) for x in got])
+            except ValueError:
+                pass
+            except Exception as ex:  # noqa: BLE001
+                sw.check(False, "a malformed wildcard raised something else than ValueError", case, "ValueError", type(ex).__name__)
         # malformed expressions raise ValueError rather than answering
         v = vs[0][1]
         for e in MALFORMED + [o + m for o in ("", ">", "^", "~=") for m in ("1.2", "1", "1.2.x", "01.2.3", "1.2.3.4")]:
